@@ -1617,4 +1617,567 @@ theorem execOps_good (hb : NoDestroy beh) (fuel : Nat) : ∀ (ops : List Op) (st
 
 end
 
+
+/-! ### fire_order: what one occurrence delivers, and in which order -/
+
+/-- the keys after `k` in a chain -/
+def afterK (k : Nat) : List Nat → List Nat
+  | [] => []
+  | x :: xs => if x = k then xs else afterK k xs
+
+/-- the part of the chain a walker standing at `cur` still has to look at -/
+def chainFrom (cur : Option Nat) (ks : List Nat) : List Nat :=
+  match cur with
+  | none => []
+  | some k => k :: afterK k ks
+
+theorem afterK_sub {k : Nat} {ks : List Nat} : ∀ x ∈ afterK k ks, x ∈ ks := by
+  induction ks with
+  | nil => simp [afterK]
+  | cons a t ih =>
+    intro x hx
+    simp only [afterK] at hx
+    split at hx
+    · exact List.mem_cons_of_mem _ hx
+    · exact List.mem_cons_of_mem _ (ih x hx)
+
+theorem afterK_nodup {k : Nat} {ks : List Nat} (hn : ks.Nodup) : (afterK k ks).Nodup ∧ k ∉ afterK k ks := by
+  induction ks with
+  | nil => simp [afterK]
+  | cons a t ih =>
+    simp only [List.nodup_cons] at hn
+    simp only [afterK]
+    split
+    · rename_i hak; subst hak; exact ⟨hn.2, hn.1⟩
+    · exact ih hn.2
+
+theorem afterK_append_of_mem {k : Nat} {ks A : List Nat} (hk : k ∈ ks) : afterK k (ks ++ A) = afterK k ks ++ A := by
+  induction ks with
+  | nil => cases hk
+  | cons a t ih =>
+    simp only [List.cons_append, afterK]
+    split
+    · rfl
+    · rename_i hak
+      rcases List.mem_cons.1 hk with rfl | hk
+      · exact absurd rfl hak
+      · exact ih hk
+
+theorem afterK_append_of_not_mem {k : Nat} {P ks : List Nat} (hk : k ∉ P) : afterK k (P ++ ks) = afterK k ks := by
+  induction P with
+  | nil => rfl
+  | cons a t ih =>
+    simp only [List.mem_cons, not_or] at hk
+    simp only [List.cons_append, afterK]
+    rw [if_neg (fun e => hk.1 e.symm)]
+    exact ih hk.2
+
+theorem afterK_infix {k : Nat} {P ks A : List Nat} (hn : (P ++ ks ++ A).Nodup) (hk : k ∈ ks) :
+    afterK k (P ++ ks ++ A) = afterK k ks ++ A := by
+  have hkP : k ∉ P := by
+    intro hp
+    rw [List.append_assoc] at hn
+    exact (List.nodup_append.1 hn).2.2 k hp k (List.mem_append_left _ hk) rfl
+  rw [List.append_assoc, afterK_append_of_not_mem hkP, afterK_append_of_mem hk]
+
+theorem afterK_of_afterK_cons {k k2 : Nat} {ks t : List Nat} (hn : ks.Nodup) (h : afterK k ks = k2 :: t) : afterK k2 ks = t := by
+  induction ks with
+  | nil => simp [afterK] at h
+  | cons a rest ih =>
+    simp only [List.nodup_cons] at hn
+    simp only [afterK] at h
+    split at h
+    · -- a = k, rest = k2 :: t
+      subst h
+      have : a ≠ k2 := fun e => hn.1 (by simp [e])
+      simp only [afterK, if_neg this, if_true]
+    · have hk2 : k2 ∈ rest := afterK_sub k2 (by rw [h]; simp)
+      have : a ≠ k2 := fun e => hn.1 (e ▸ hk2)
+      simp only [afterK, if_neg this]
+      exact ih hn.2 h
+
+theorem nextOf_eq {l : List Node} {k : Nat} (hk : k ∈ keys l) : nextOf l k = some ((afterK k (keys l)).head?) := by
+  induction l with
+  | nil => cases hk
+  | cons a rest ih =>
+    simp only [nextOf, keys_cons, afterK]
+    split
+    · cases rest <;> simp [keys]
+    · rename_i hak
+      simp only [keys_cons, List.mem_cons] at hk
+      rcases hk with rfl | hk
+      · exact absurd rfl hak
+      · exact ih hk
+
+theorem firstOf_eq (l : List Node) : firstOf l = (keys l).head? := by
+  cases l <;> simp [firstOf, keys]
+
+theorem chainFrom_head (ks : List Nat) : chainFrom ks.head? ks = ks := by
+  cases ks with
+  | nil => rfl
+  | cons a t => simp [chainFrom, afterK]
+
+/-- One step of the walker along a chain that meanwhile grew at its ends. -/
+theorem chain_step {k : Nat} {P ks A : List Nat} (hn : (P ++ ks ++ A).Nodup) (hk : k ∈ ks)
+    (hlast : afterK k ks = [] → A = []) :
+    afterK k (P ++ ks ++ A) = chainFrom (afterK k ks).head? (P ++ ks ++ A) := by
+  rw [afterK_infix hn hk]
+  cases hak : afterK k ks with
+  | nil => simp [chainFrom, hlast hak]
+  | cons k2 t =>
+    have hks : ks.Nodup := by
+      have := (List.nodup_append.1 hn).1
+      exact (List.nodup_append.1 this).2.1
+    have hk2 : k2 ∈ ks := afterK_sub k2 (by rw [hak]; simp)
+    simp only [List.head?_cons, chainFrom, List.cons_append]
+    rw [afterK_infix hn hk2, afterK_of_afterK_cons hks hak]
+
+theorem split_append_single {α : Type} {A : List α} {x c : α} {s2 s1 : List α} (h : A ++ [x] = s2 ++ c :: s1) :
+    (s1 = [] ∧ c = x ∧ s2 = A) ∨ (∃ s1', A = s2 ++ c :: s1' ∧ s1 = s1' ++ [x]) := by
+  induction A generalizing s2 with
+  | nil =>
+    cases s2 with
+    | nil => simp at h; exact Or.inl ⟨h.2, h.1.symm, rfl⟩
+    | cons b s2' =>
+      simp at h
+  | cons a A' ih =>
+    cases s2 with
+    | nil =>
+      simp at h
+      exact Or.inr ⟨A', by simp [h.1], h.2.symm⟩
+    | cons b s2' =>
+      simp at h
+      rcases ih h.2 with ⟨h1, h2, h3⟩ | ⟨s1', h1, h2⟩
+      · exact Or.inl ⟨h1, h2, by rw [h.1, h3]⟩
+      · exact Or.inr ⟨s1', by rw [h.1, h1]; simp, h2⟩
+
+theorem split_append_of_not_mem {α : Type} {A B : List α} {c : α} {s2 s1 : List α} (h : A ++ B = s2 ++ c :: s1) (hc : c ∉ B) :
+    ∃ s1', A = s2 ++ c :: s1' ∧ s1 = s1' ++ B := by
+  induction A generalizing s2 with
+  | nil =>
+    simp at h
+    exact absurd (by rw [h]; simp) hc
+  | cons a A' ih =>
+    cases s2 with
+    | nil =>
+      simp at h
+      exact ⟨A', by simp [h.1], h.2.symm⟩
+    | cons b s2' =>
+      simp at h
+      obtain ⟨s1', h1, h2⟩ := ih h.2
+      exact ⟨s1', by rw [h.1, h1]; simp, h2⟩
+
+/-- the bindings occurrence `o` decided to deliver to, oldest first -/
+def firesOf (o : Nat) (seg : List Ev) : List Nat :=
+  seg.reverse.filterMap fun e => match e with
+    | .fire k o' => if o' = o then some k else none
+    | _ => none
+
+theorem firesOf_append (o : Nat) (a b : List Ev) : firesOf o (a ++ b) = firesOf o b ++ firesOf o a := by
+  simp [firesOf, List.filterMap_append]
+
+theorem mem_firesOf {o k : Nat} {seg : List Ev} : k ∈ firesOf o seg ↔ Ev.fire k o ∈ seg := by
+  simp only [firesOf, List.mem_filterMap, List.mem_reverse]
+  constructor
+  · rintro ⟨e, he, hm⟩
+    cases e <;> simp at hm
+    obtain ⟨rfl, rfl⟩ := hm
+    exact he
+  · intro h
+    exact ⟨_, h, by simp⟩
+
+theorem firesOf_eq_nil {o : Nat} {seg : List Ev} (h : ∀ k, Ev.fire k o ∉ seg) : firesOf o seg = [] := by
+  apply List.eq_nil_iff_forall_not_mem.2
+  intro k hk
+  exact h k (mem_firesOf.1 hk)
+
+/-- live and bound to event `ev`, read off the trace -/
+def evLive (ev : Int) (log : List Ev) (k : Nat) : Prop :=
+  liveAt log k ∧ ∃ id first fl, Ev.bound k id ev first fl ∈ log
+
+/-- A binding already bound does not come back to life, nor change its event. -/
+theorem evLive_mono {ev : Int} {s log : List Ev} {k : Nat} (ht : TraceOk (s ++ log)) (hb : ∃ fl, boundIn log k fl)
+    (h : evLive ev (s ++ log) k) : evLive ev log k := by
+  obtain ⟨fl0, id0, ev0, f0, hm0⟩ := hb
+  obtain ⟨⟨fl, hbi, hnr, hnf⟩, id, first, fl', hm⟩ := h
+  have hm0' : Ev.bound k id0 ev0 f0 fl0 ∈ s ++ log := List.mem_append_right _ hm0
+  obtain ⟨id1, ev1, f1, hm1⟩ := hbi
+  have e1 := bound_unique ht hm1 hm0'
+  have e2 := bound_unique ht hm hm0'
+  refine ⟨⟨fl0, ⟨id0, ev0, f0, hm0⟩, fun hr => hnr (List.mem_append_right _ hr), fun ho => ?_⟩, id0, f0, fl0, ?_⟩
+  · rintro ⟨o, hf⟩
+    exact hnf (by rw [e1.2.2.2]; exact ho) ⟨o, List.mem_append_right _ hf⟩
+  · rw [e2.2.1]; exact hm0
+
+
+/-- What a completed walk from `cur` has done, in terms of the trace:
+    * the deliveries of this occurrence went, in chain order and at most once each, to bindings of the chain from
+      `cur` on (as the chain is at the end: bindings appended meanwhile included);
+    * each went to a binding that was live and bound to the event at that moment;
+    * a binding of the chain that got no delivery was not live-and-bound-to-the-event at the moment any binding
+      after it got one, nor — unless a handler claimed the event — at the end. -/
+def WalkPost (wf : Bool) (ev : Int) (o : Nat) (cur : Option Nat) (st st' : St) (r : Int) : Prop :=
+  ∃ seg, st'.log = seg ++ st.log ∧
+    (firesOf o seg).Sublist (chainFrom cur (keys st'.list)) ∧
+    (∀ c s1 s2, seg = s2 ++ Ev.fire c o :: s1 → evLive ev (s1 ++ st.log) c) ∧
+    (∀ b ∈ chainFrom cur (keys st'.list), b ∉ firesOf o seg →
+        (∀ c s1 s2, seg = s2 ++ Ev.fire c o :: s1 → c ∈ afterK b (chainFrom cur (keys st'.list)) →
+            ¬ evLive ev (s1 ++ st.log) b) ∧
+        (¬ (wf = true ∧ r ≠ 0) → ¬ evLive ev st'.log b))
+
+section
+variable (own : Owner) (beh : Behaviour)
+
+theorem walk_spec (hb : NoDestroy beh) : ∀ (fuel : Nat) (wf : Bool) (ev : Int) (o : Nat) (cur : Option Nat) (st st' : St) (r : Int),
+    Inv st → TaskOk (.walk wf ev o cur) st → exec Cfg.repaired own beh fuel (.walk wf ev o cur) st = .ok (st', r) →
+    WalkPost wf ev o cur st st' r := by
+  intro fuel
+  induction fuel with
+  | zero => intro wf ev o cur st st' r _ _ hex; simp [exec] at hex
+  | succ fuel ih =>
+    intro wf ev o cur st st' r h hok hex
+    have hgood := exec_good own beh hb fuel
+    have hwhole := exec_good own beh hb (fuel + 1) (.walk wf ev o cur) st h hok
+    rw [hex] at hwhole
+    obtain ⟨hinv', hstep'⟩ := hwhole
+    obtain ⟨hit, hcur, hocc⟩ := hok
+    cases cur with
+    | none =>
+      simp only [exec] at hex
+      injection hex with hex; injection hex with h1 h2; subst h1
+      exact ⟨[], rfl, by simp [chainFrom, firesOf], by intro c s1 s2 hs; simp at hs, by intro b hb'; simp [chainFrom] at hb'⟩
+    | some k =>
+      have hk : k ∈ keys st.list := hcur k rfl
+      obtain ⟨b, hfb⟩ := findKey_of_mem hk
+      obtain ⟨hbm, hbk⟩ := findKey_some hfb
+      subst hbk
+      obtain ⟨P, A, hinfix⟩ := hstep'.keysIter hit
+      have hnodup' : (P ++ keys st.list ++ A).Nodup := by rw [← hinfix]; exact hinv'.keysNodup
+      have hkchain : b.key ∉ afterK b.key (keys st'.list) := (afterK_nodup hinv'.keysNodup).2
+      obtain ⟨idb, evb, firstb, hmb, hinfo⟩ := h.boundInfo b hbm
+      have hbound : ∃ fl, boundIn st.log b.key fl := ⟨b.flags, idb, evb, firstb, hmb⟩
+      simp only [exec, hfb, repaired_skipTomb, repaired_wfOneshot, Bool.or_true, Bool.and_true, forall_const] at hex
+      split at hex
+      · -- delivered
+        rename_i hc
+        obtain ⟨hbev, hlive⟩ := hc
+        have hlive0 : evLive ev st.log b.key := by
+          refine ⟨(h.liveIff b.key).1 ⟨b, hbm, rfl, hlive⟩, idb, firstb, b.flags, ?_⟩
+          have := (hinfo hlive).1
+          rw [← hbev, ← this]; exact hmb
+        have h1 : Inv { st with
+            list := if b.flags.oneshot = true then modifyKey st.list b.key (fun b => { b with id := TOMBSTONE }) else st.list,
+            needsDelete := b.flags.oneshot || st.needsDelete, log := Ev.fire b.key o :: st.log } := by
+          cases ho : b.flags.oneshot with
+          | true =>
+            exact h.of_kill hbm hlive (f := fun b => { b with id := TOMBSTONE }) (fun a => ⟨rfl, rfl, rfl⟩) (by simp) rfl rfl rfl rfl
+              (not_liveAt_fire_oneshot h.trace ⟨idb, evb, firstb, hmb⟩ ho) ((h.liveIff b.key).1 ⟨b, hbm, rfl, hlive⟩) hit (by simp) rfl
+          | false =>
+            exact h.of_fire_keep hbm hlive ho (by simp) rfl rfl (fun x hx hxt => ⟨hit, by simpa using (h.tombIter x hx hxt).2⟩)
+        have hkeys1 : keys (if b.flags.oneshot = true then modifyKey st.list b.key (fun b => { b with id := TOMBSTONE }) else st.list)
+            = keys st.list := by
+          split
+          · exact keys_modifyKey _ _ _ (fun _ => rfl)
+          · rfl
+        have hcall : TaskOk (.call b.key b.fn (if b.flags.oneshot = true then EV_FIRE + EV_UNBIND else EV_FIRE) o)
+            { st with
+              list := if b.flags.oneshot = true then modifyKey st.list b.key (fun b => { b with id := TOMBSTONE }) else st.list,
+              needsDelete := b.flags.oneshot || st.needsDelete, log := Ev.fire b.key o :: st.log } := by
+          refine ⟨h.liveFn b hbm hlive, h.keysLt b hbm, fun hh n => ⟨fun _ => ⟨_, rfl⟩, fun he => ?_⟩⟩
+          split at he <;> simp [EV_FIRE, EV_UNBIND] at he
+        have hw := hgood _ _ h1 hcall
+        cases hres : exec Cfg.repaired own beh fuel
+            (.call b.key b.fn (if b.flags.oneshot = true then EV_FIRE + EV_UNBIND else EV_FIRE) o)
+            { st with
+              list := if b.flags.oneshot = true then modifyKey st.list b.key (fun b => { b with id := TOMBSTONE }) else st.list,
+              needsDelete := b.flags.oneshot || st.needsDelete, log := Ev.fire b.key o :: st.log } with
+        | outOfFuel => rw [hres] at hex; simp at hex
+        | ub w => rw [hres] at hex; simp at hex
+        | ok p =>
+          obtain ⟨st2, r2⟩ := p
+          rw [hres] at hex hw
+          obtain ⟨h2, s2⟩ := hw
+          simp only at hex
+          obtain ⟨segc, hsegc, hfc⟩ := s2.logExt
+          simp only at hsegc hfc
+          -- the handler's own activity contains no delivery of this occurrence
+          have hnoc : ∀ c, Ev.fire c o ∉ segc := by
+            intro c hm
+            rcases hfc c o hm with hle | he
+            · omega
+            · cases he
+          have hk2 : b.key ∈ keys st2.list := by
+            have := s2.mem_keys (k := b.key) hit (by simp only; rw [hkeys1]; exact hk)
+            exact this
+          have hiter2 : st2.isIter = true := s2.iter.trans hit
+          split at hex
+          · -- a handler claimed the event: the walk stops
+            rename_i hclaim
+            injection hex with hex; injection hex with e1 e2; subst e1; subst e2
+            simp only [Bool.and_eq_true, bne_iff_ne, ne_eq] at hclaim
+            refine ⟨segc ++ [Ev.fire b.key o], by rw [hsegc]; simp, ?_, ?_, ?_⟩
+            · rw [firesOf_append, firesOf_eq_nil hnoc]
+              simp [firesOf, chainFrom]
+            · intro c s1 s2' hs
+              rcases split_append_single hs with ⟨hs1, hce, _⟩ | ⟨s1', hs1', _⟩
+              · injection hce with hce _; subst hce; subst hs1; exact hlive0
+              · exact absurd (by rw [hs1']; simp) (hnoc c)
+            · intro b' hb' hnf
+              refine ⟨?_, fun hncl => absurd ⟨hclaim.1, hclaim.2⟩ hncl⟩
+              intro c s1 s2' hs hafter
+              rcases split_append_single hs with ⟨_, hce, _⟩ | ⟨s1', hs1', _⟩
+              · injection hce with hce _
+                -- `c = b.key` would have to come after `b'` in a chain that starts with `b.key`
+                exfalso
+                rw [hce] at hafter
+                simp only [chainFrom] at hafter hb'
+                have hne : b' ≠ b.key := by
+                  intro e; apply hnf; rw [firesOf_append, firesOf_eq_nil hnoc, e]; simp [firesOf]
+                simp only [afterK, if_neg (Ne.symm hne)] at hafter
+                exact hkchain (afterK_sub _ hafter)
+              · exact absurd (by rw [hs1']; simp) (hnoc c)
+          · -- the walk goes on from the next binding of the chain as it is now
+            cases hn : nextOf st2.list b.key with
+            | none => exact absurd hk2 (nextOf_none hn)
+            | some nx =>
+              rw [hn] at hex
+              simp only at hex
+              have hocc2 : o < st2.nextOcc := Nat.lt_of_lt_of_le hocc s2.occMono
+              have hok2 : TaskOk (.walk wf ev o nx) st2 := ⟨hiter2, fun k' hk' => nextOf_some_mem (hk' ▸ hn), hocc2⟩
+              obtain ⟨segr, hsegr, hsub, hsound, hcomp⟩ := ih wf ev o nx st2 st' r h2 hok2 hex
+              -- the chain from `b.key`, at the end, is `b.key` followed by the chain from `nx`
+              have hstep2 := hgood (.walk wf ev o nx) st2 h2 hok2
+              rw [hex] at hstep2
+              obtain ⟨P2, A2, hinfix2⟩ := hstep2.2.keysIter hiter2
+              have hnx : nx = (afterK b.key (keys st2.list)).head? := by
+                have := nextOf_eq hk2; rw [hn] at this; injection this
+              have hchain : afterK b.key (keys st'.list) = chainFrom nx (keys st'.list) := by
+                rw [hnx, hinfix2]
+                apply chain_step (by rw [← hinfix2]; exact hinv'.keysNodup) hk2
+                intro hlast
+                -- the walker was at the last binding: the rest of the walk did nothing
+                rw [hlast] at hnx
+                simp only [List.head?_nil] at hnx
+                subst hnx
+                cases fuel with
+                | zero => simp [exec] at hex
+                | succ f =>
+                  simp only [exec] at hex
+                  injection hex with hex; injection hex with e1 _
+                  rw [← e1] at hinfix2
+                  have hl := congrArg List.length hinfix2
+                  simp only [List.length_append] at hl
+                  have : A2.length = 0 := by omega
+                  exact List.eq_nil_of_length_eq_zero this
+              have hlog' : st'.log = (segr ++ segc ++ [Ev.fire b.key o]) ++ st.log := by rw [hsegr, hsegc]; simp
+              have hfires : firesOf o (segr ++ segc ++ [Ev.fire b.key o]) = b.key :: firesOf o segr := by
+                rw [firesOf_append, firesOf_append, firesOf_eq_nil hnoc]; simp [firesOf]
+              -- where a delivery of this occurrence can sit in the new part of the trace
+              have hsplit : ∀ c s1 s2', segr ++ segc ++ [Ev.fire b.key o] = s2' ++ Ev.fire c o :: s1 →
+                  (s1 = [] ∧ c = b.key) ∨ (∃ s1', segr = s2' ++ Ev.fire c o :: s1' ∧ s1 ++ st.log = s1' ++ st2.log) := by
+                intro c s1 s2' hs
+                rcases split_append_single hs with ⟨hs1, hce, _⟩ | ⟨s1', hs1', hs1⟩
+                · injection hce with hce _; exact Or.inl ⟨hs1, hce⟩
+                · obtain ⟨s1'', h1', h2'⟩ := split_append_of_not_mem hs1' (hnoc c)
+                  exact Or.inr ⟨s1'', h1', by rw [hs1, h2', hsegc]; simp⟩
+              refine ⟨segr ++ segc ++ [Ev.fire b.key o], hlog', ?_, ?_, ?_⟩
+              · rw [hfires]; simp only [chainFrom]; rw [hchain]; exact hsub.cons_cons _
+              · intro c s1 s2' hs
+                rcases hsplit c s1 s2' hs with ⟨hs1, hce⟩ | ⟨s1', hs1', hlogeq⟩
+                · subst hs1; subst hce; exact hlive0
+                · rw [hlogeq]; exact hsound c s1' s2' hs1'
+              · intro b' hb' hnf
+                rw [hfires] at hnf
+                simp only [List.mem_cons, not_or] at hnf
+                simp only [chainFrom, List.mem_cons] at hb'
+                have hb2 : b' ∈ chainFrom nx (keys st'.list) := by
+                  rcases hb' with e | hb'
+                  · exact absurd e hnf.1
+                  · rw [← hchain]; exact hb'
+                obtain ⟨hca, hcb⟩ := hcomp b' hb2 hnf.2
+                refine ⟨?_, hcb⟩
+                intro c s1 s2' hs hafter
+                simp only [chainFrom, afterK, if_neg (Ne.symm hnf.1)] at hafter
+                rw [hchain] at hafter
+                rcases hsplit c s1 s2' hs with ⟨_, hce⟩ | ⟨s1', hs1', hlogeq⟩
+                · subst hce
+                  exact absurd (by rw [hchain]; exact afterK_sub _ hafter) hkchain
+                · rw [hlogeq]; exact hca c s1' s2' hs1' hafter
+      · -- not for this event, or a tombstone: skipped
+        rename_i hc
+        have hdead0 : ¬ evLive ev st.log b.key := by
+          rintro ⟨hla, id', first', fl', hm'⟩
+          have hlk := (h.liveIff b.key).2 hla
+          obtain ⟨x, hx, hxk, hxl⟩ := hlk
+          have hxb : x = b := by
+            have f1 := findKey_eq_of_mem h.keysNodup hx
+            rw [hxk, hfb] at f1; injection f1 with f1; exact f1.symm
+          subst hxb
+          have := (hinfo hxl).1
+          have e2 := (bound_unique h.trace hm' hmb).2.1
+          exact hc ⟨by rw [← this, ← e2], hxl⟩
+        cases hn : nextOf st.list b.key with
+        | none => exact absurd hk (nextOf_none hn)
+        | some nx =>
+          rw [hn] at hex
+          simp only at hex
+          have hok2 : TaskOk (.walk wf ev o nx) st := ⟨hit, fun k' hk' => nextOf_some_mem (hk' ▸ hn), hocc⟩
+          obtain ⟨segr, hsegr, hsub, hsound, hcomp⟩ := ih wf ev o nx st st' r h hok2 hex
+          have hnx : nx = (afterK b.key (keys st.list)).head? := by
+            have := nextOf_eq hk; rw [hn] at this; injection this
+          have hchain : afterK b.key (keys st'.list) = chainFrom nx (keys st'.list) := by
+            rw [hnx, hinfix]
+            apply chain_step hnodup' hk
+            intro hlast
+            rw [hlast] at hnx
+            simp only [List.head?_nil] at hnx
+            subst hnx
+            cases fuel with
+            | zero => simp [exec] at hex
+            | succ f =>
+              simp only [exec] at hex
+              injection hex with hex; injection hex with e1 _
+              rw [← e1] at hinfix
+              have hl := congrArg List.length hinfix
+              simp only [List.length_append] at hl
+              have : A.length = 0 := by omega
+              exact List.eq_nil_of_length_eq_zero this
+          have htr' : TraceOk (segr ++ st.log) := by rw [← hsegr]; exact hinv'.trace
+          refine ⟨segr, hsegr, ?_, hsound, ?_⟩
+          · simp only [chainFrom]; rw [hchain]; exact hsub.cons _
+          · intro b' hb' hnf
+            simp only [chainFrom, List.mem_cons] at hb'
+            by_cases hbk : b' = b.key
+            · subst hbk
+              refine ⟨fun c s1 s2' hs _ hl => hdead0 (evLive_mono ?_ hbound hl), fun _ hl => hdead0 (evLive_mono ?_ hbound (by rw [← hsegr]; exact hl))⟩
+              · rw [hs, List.append_assoc] at htr'
+                exact (TraceOk.suffix htr').2
+              · exact htr'
+            · have hb2 : b' ∈ chainFrom nx (keys st'.list) := by
+                rcases hb' with e | hb'
+                · exact absurd e hbk
+                · rw [← hchain]; exact hb'
+              obtain ⟨hca, hcb⟩ := hcomp b' hb2 hnf
+              refine ⟨?_, hcb⟩
+              intro c s1 s2' hs hafter
+              simp only [chainFrom, afterK, if_neg (Ne.symm hbk)] at hafter
+              rw [hchain] at hafter
+              exact hca c s1 s2' hs hafter
+
+end
+
+
+section
+variable (own : Owner) (beh : Behaviour)
+
+/-- **One occurrence** (`tickit_bindings_run_event` / `…_whilefalse` called in any state satisfying the invariant,
+    i.e. at any nesting depth).  `A` are the bindings appended to the chain while it was being delivered. -/
+theorem runEvent_spec (hb : NoDestroy beh) {fuel : Nat} {wf : Bool} {ev : Int} {st st' : St} {r : Int} (h : Inv st)
+    (hex : exec Cfg.repaired own beh fuel (.runEvent wf ev) st = .ok (st', r)) :
+    ∃ seg A, st'.log = Ev.occEnd st.nextOcc :: (seg ++ Ev.occBegin st.nextOcc ev wf :: st.log) ∧
+      (keys st.list ++ A).Nodup ∧
+      (firesOf st.nextOcc seg).Sublist (keys st.list ++ A) ∧
+      (∀ c s1 s2, seg = s2 ++ Ev.fire c st.nextOcc :: s1 → evLive ev (s1 ++ Ev.occBegin st.nextOcc ev wf :: st.log) c) ∧
+      (∀ b ∈ keys st.list ++ A, b ∉ firesOf st.nextOcc seg →
+        (∀ c s1 s2, seg = s2 ++ Ev.fire c st.nextOcc :: s1 → c ∈ afterK b (keys st.list ++ A) →
+            ¬ evLive ev (s1 ++ Ev.occBegin st.nextOcc ev wf :: st.log) b) ∧
+        (¬ (wf = true ∧ r ≠ 0) → ¬ evLive ev (seg ++ Ev.occBegin st.nextOcc ev wf :: st.log) b)) := by
+  cases fuel with
+  | zero => simp [exec] at hex
+  | succ fuel =>
+    simp only [exec] at hex
+    have h1 : Inv { st with isIter := true, nextOcc := st.nextOcc + 1, log := Ev.occBegin st.nextOcc ev wf :: st.log } :=
+      h.of_push rfl rfl rfl rfl (by simp [Ev.key?]) (by simp [EvOk]) (fun b hb' ht => ⟨rfl, (h.tombIter b hb' ht).2⟩)
+    have hok : TaskOk (.walk wf ev st.nextOcc (firstOf st.list))
+        { st with isIter := true, nextOcc := st.nextOcc + 1, log := Ev.occBegin st.nextOcc ev wf :: st.log } :=
+      ⟨rfl, fun k hk => firstOf_mem hk, Nat.lt_succ_self _⟩
+    cases hres : exec Cfg.repaired own beh fuel (.walk wf ev st.nextOcc (firstOf st.list))
+        { st with isIter := true, nextOcc := st.nextOcc + 1, log := Ev.occBegin st.nextOcc ev wf :: st.log } with
+    | outOfFuel => rw [hres] at hex; simp at hex
+    | ub w => rw [hres] at hex; simp at hex
+    | ok p =>
+      obtain ⟨st2, r2⟩ := p
+      rw [hres] at hex
+      simp only at hex
+      have hgood := exec_good own beh hb fuel _ _ h1 hok
+      rw [hres] at hgood
+      obtain ⟨h2, s2⟩ := hgood
+      obtain ⟨P, A, hinfix⟩ := s2.keysIter rfl
+      simp only at hinfix
+      obtain ⟨seg, hseg, hsub, hsound, hcomp⟩ := walk_spec own beh hb fuel wf ev st.nextOcc (firstOf st.list) _ st2 r2 h1 hok hres
+      simp only at hseg hsound hcomp
+      -- the chain the walker went through is the chain at the start plus what was appended
+      have hchain : chainFrom (firstOf st.list) (keys st2.list) = keys st.list ++ A := by
+        rw [firstOf_eq]
+        cases hks : keys st.list with
+        | nil =>
+          -- nothing to walk: the walk returned at once
+          have hnone : firstOf st.list = none := by rw [firstOf_eq, hks]; rfl
+          rw [hnone] at hres
+          cases fuel with
+          | zero => simp [exec] at hres
+          | succ f =>
+            simp only [exec] at hres
+            injection hres with hres; injection hres with e1 _
+            rw [← e1] at hinfix
+            have hl := congrArg List.length hinfix
+            simp only [hks, List.length_append, List.length_nil] at hl
+            have : A = [] := List.eq_nil_of_length_eq_zero (by omega)
+            simp [chainFrom, this]
+        | cons k0 t =>
+          have hn2 : (P ++ (k0 :: t) ++ A).Nodup := by rw [← hks, ← hinfix]; exact h2.keysNodup
+          simp only [List.head?_cons, chainFrom]
+          rw [hinfix, hks, afterK_infix hn2 (by simp)]
+          simp [afterK]
+      have hnd : (keys st.list ++ A).Nodup := by
+        have : (P ++ keys st.list ++ A).Nodup := by rw [← hinfix]; exact h2.keysNodup
+        rw [List.append_assoc] at this
+        exact (List.nodup_append.1 this).2.1
+      rw [hchain] at hsub hcomp
+      have hr : r = r2 ∧ st'.log = Ev.occEnd st.nextOcc :: st2.log := by
+        split at hex <;> (injection hex with hex; injection hex with e1 e2; subst e1; exact ⟨e2.symm, rfl⟩)
+      refine ⟨seg, A, by rw [hr.2, hseg], hnd, hsub, hsound, ?_⟩
+      intro b hb' hnf
+      obtain ⟨ha, hb2⟩ := hcomp b hb' hnf
+      refine ⟨ha, ?_⟩
+      rw [hr.1, ← hseg]
+      exact hb2
+
+end
+
+/-- The binding order read off a well-formed trace has no repetition. -/
+theorem bindOrder_nodup {log : List Ev} (ht : TraceOk log) :
+    (bindOrder log).Nodup ∧ ∀ k ∈ bindOrder log, ∃ e ∈ log, e.key? = some k := by
+  induction log with
+  | nil => simp [bindOrder]
+  | cons e pre ih =>
+    obtain ⟨he, hp⟩ := ht
+    obtain ⟨ihn, ihm⟩ := ih hp
+    cases e with
+    | bound k id ev first fl =>
+      have hfresh : k ∉ bindOrder pre := by
+        intro hk
+        obtain ⟨e', he', hk'⟩ := ihm k hk
+        exact he.1 e' he' hk'
+      simp only [bindOrder]
+      split
+      · refine ⟨List.nodup_cons.2 ⟨hfresh, ihn⟩, ?_⟩
+        intro k' hk'
+        rcases List.mem_cons.1 hk' with rfl | hk'
+        · exact ⟨_, List.mem_cons_self .., rfl⟩
+        · obtain ⟨e', he', hk''⟩ := ihm k' hk'
+          exact ⟨e', List.mem_cons_of_mem _ he', hk''⟩
+      · refine ⟨?_, ?_⟩
+        · rw [List.nodup_append]
+          exact ⟨ihn, by simp, fun a ha b hb' => by simp at hb'; subst hb'; exact fun e => hfresh (e ▸ ha)⟩
+        · intro k' hk'
+          rcases List.mem_append.1 hk' with hk' | hk'
+          · obtain ⟨e', he', hk''⟩ := ihm k' hk'
+            exact ⟨e', List.mem_cons_of_mem _ he', hk''⟩
+          · simp at hk'; subst hk'
+            exact ⟨_, List.mem_cons_self .., rfl⟩
+    | _ =>
+      simp only [bindOrder]
+      exact ⟨ihn, fun k hk => by obtain ⟨e', he', hk'⟩ := ihm k hk; exact ⟨e', List.mem_cons_of_mem _ he', hk'⟩⟩
+
 end Tickit.Bindings
